@@ -128,3 +128,27 @@ Theorem C12_put_bytes_fd_balanced : forall (H : bytes -> bytes) id chunks tm b f
   (fd_leak b (put_bytes_prog H id chunks tm) fs = None /\ snd (fst (run_f b (put_bytes_prog H id chunks tm) fs)) = Stopped).
 Proof. exact put_bytes_fd_balanced. Qed.
 Print Assumptions C12_put_bytes_fd_balanced.
+
+(* ------------------------------------------------------------------ *)
+(* Cache.putIndexEntry, the WHOLE function translated in world mode (Gen/CacheWorldSrc.v: every
+   operating-system call an uninterpreted operation on an abstract world), verify mode off: for
+   every world and every behaviour of the operations it performs exactly the operations of the
+   model's put_index_body, in its order, with its decisions on every result -- OpenFile(O_WRONLY |
+   O_CREATE, 0666), one Write of encode_entry (the clock read of time.Now() as the time stamp),
+   Truncate to the entry's length only after a successful Write, Close always, Remove when any
+   of them failed and Chtimes otherwise -- and returns nil exactly when the model says true. *)
+From GI Require Import Lib.GoSemWorld Lib.GoSemWorldVal Cache.SrcLib Cache.SrcWorld Gen.CacheWorldSrc Cache.SrcWorldFacts.
+
+Theorem C12_source_world_put_index_entry :
+  forall (OS : os_ops) (rh : bytes -> bytes) fuel (w : World OS) (c : cw_Cache) (id out : bytes) (size : Z)
+         (allow : bool) (h : Handle OS) (o : bool),
+  id <> [] -> (0 <= size)%Z ->
+  let tm := go_time_UnixNano (op_time_now OS w) in
+  match run_prog OS (cw_Cache_dir c) (put_index_body id out (Z.to_nat size) tm) (w, h, o) with
+  | (st, ok) =>
+      exists err,
+        cw_Cache_putIndexEntry OS false rh fuel w c id out size allow = GoSem.Ok (st_world OS st, c, err)
+        /\ werr_is_nil err = ok
+  end.
+Proof. exact cw_putIndexEntry_eq. Qed.
+Print Assumptions C12_source_world_put_index_entry.
